@@ -158,6 +158,33 @@ type c14Op struct {
 	Outcome string   `json:"outcome"`
 }
 
+// describedInterfacePoison pairs a field of a loaded object type with a field
+// of a new interface that has a description (through an extension that makes
+// the object implement the interface), in a document that then fails in
+// validation for another reason: nothing of the pairing may stay on the loaded
+// field.
+func describedInterfacePoison(t *tape.Tape, gen *workload.Gen) (workload.Fragment, bool) {
+	if !t.Bool(1, 6) {
+		return workload.Fragment{}, false
+	}
+	o := gen.PickLoaded("object")
+	if o == nil || len(o.Fields) == 0 || strings.HasPrefix(o.Name, "__") {
+		return workload.Fragment{}, false
+	}
+	f := o.Fields[t.Draw(len(o.Fields))]
+	sig := f.Name
+	if len(f.Args) > 0 {
+		var as []string
+		for _, a := range f.Args {
+			as = append(as, a.Name+": "+a.Type)
+		}
+		sig += "(" + strings.Join(as, ", ") + ")"
+	}
+	k := t.Draw(1000)
+	return workload.Fragment{Kind: "poison:validation:described_interface_field_paired_with_loaded_field_then_invalid", Mutates: true,
+		Text: fmt.Sprintf("interface ZDesc%d {\n  \"described by the interface\"\n  %s: %s\n}\nextend type %s implements ZDesc%d {\n}\ntype ZzBad%d {\n}\n", k, sig, f.Type, o.Name, k, k)}, true
+}
+
 func (c C14) Run(t *tape.Tape, opt core.RunOpt) (res core.Result) {
 	// Two kinds of root: a synthetic one (empty at first, data fabricated from
 	// the schema) and, in one run of four, a zoo root with real data behind a
@@ -203,6 +230,11 @@ func (c C14) Run(t *tape.Tape, opt core.RunOpt) (res core.Result) {
 	}()
 
 	chain, chainSent := t.Bool(1, 4), false
+	// an application that runs with the relaxed switch on (enum values accepted
+	// as JSON strings): loads, also refused ones, must leave it as it is
+	oldRelaxed := ggql.Relaxed
+	ggql.Relaxed = t.Bool(1, 2)
+	defer func() { ggql.Relaxed = oldRelaxed }()
 	for opi := 0; opi < nOps; opi++ {
 		gen.St = workload.ReadSymTab(root, gen.N)
 		gen.ResetDoc()
@@ -267,6 +299,9 @@ func (c C14) Run(t *tape.Tape, opt core.RunOpt) (res core.Result) {
 				tn := []string{"Zc1", "Zc2"}[t.Draw(2)]
 				p := workload.Fragment{Kind: "poison:validation:extend_chain_input_then_invalid", Mutates: true,
 					Text: fmt.Sprintf("extend input %s {\n  zz%d: Int = %d\n}\ntype ZzBad%d {\n}\n", tn, k, 1+k, k)}
+				pos := t.Draw(len(frags) + 1)
+				frags = append(frags[:pos], append([]workload.Fragment{p}, frags[pos:]...)...)
+			} else if p, ok := describedInterfacePoison(t, gen); poisoned && ok {
 				pos := t.Draw(len(frags) + 1)
 				frags = append(frags[:pos], append([]workload.Fragment{p}, frags[pos:]...)...)
 			} else if poisoned {
